@@ -507,4 +507,46 @@ theorem pipeline_normalize_map (env : List (String × String)) (kvs : List (Key 
 
 end PipelineBridge
 
+/-! ## non-vacuity -/
+namespace Example
+
+/-- the world of `Example.fs0` moved under `b/` -/
+def fsB : FS := { node := fun q => match q with
+  | 'b' :: '/' :: p => fs0.node p
+  | _ => none }
+
+/-- hypotheses of `relocation_env` / `relocation_labels` / `relocation_final`: `fsB` holds at `b/p` what `fs0` holds at
+    `p`; the relocated `s0` lists `b/f1`, `b/f3`, `b/f2` and resolves to the same environment (`A` from the later file,
+    `C` from the project environment, `D` unset), references renamed -/
+example : FS.Relocates (fun p => 'b' :: '/' :: p) fs0 fsB ∧
+    (s0.reloc (fun p => 'b' :: '/' :: p)).envFiles.map EnvFile.path = [['b', '/', 'f', '1'], ['b', '/', 'f', '3'], ['b', '/', 'f', '2']] ∧
+    (resolveServiceEnv penv0 fsB false (s0.reloc (fun p => 'b' :: '/' :: p))).map (fun s' =>
+      (([['A'], ['C'], ['D']] : List Key).map fun k => lookup k s'.environment, s'.envFiles.map EnvFile.path)) =
+    .ok ([some (some ['2']), some (some ['c']), some none], [['b', '/', 'f', '1'], ['b', '/', 'f', '3'], ['b', '/', 'f', '2']]) := by
+  refine ⟨⟨fun _ => rfl, rfl⟩, by decide, by decide⟩
+
+/-- `second_call_site_agrees` on `s0`: both orders succeed with the same project; and a service on which they fail with
+    *different* errors, as `second_call_site_fails_iff` allows: its env file `d` is a directory (`read`, reported by the
+    loader, which resolves environments first), its label file `n` is missing (`notFound`, reported at the second site,
+    where the loader has read the label files before the caller resolves the environment) -/
+example :
+    loadThenResolve ⟨false, false, true⟩ penv0 fs0 [(['s'], .absent, s0)] =
+      loadProject ⟨false, false, true⟩ penv0 fs0 [(['s'], .absent, s0)] ∧
+    (loadProject ⟨false, false, true⟩ penv0 fs0 [(['s'], .absent, s0)]).toBool = true ∧
+    loadProject ⟨false, false, false⟩ penv0 fs0 [(['s'], .absent, { s0 with envFiles := [⟨['d'], true, []⟩], labelFiles := [['n']] })] = .error [.read] ∧
+    loadThenResolve ⟨false, false, false⟩ penv0 fs0 [(['s'], .absent, { s0 with envFiles := [⟨['d'], true, []⟩], labelFiles := [['n']] })] = .error [.notFound] := by
+  decide
+
+/-- `pipeline_item` / `normalize_item` on concrete elements: with `A=1` in the project environment `- A` becomes `A=1` in
+    either stage, `- B` stays, and `- A=1` with the variable `A=1` set becomes `A=1=x` in `ResolveEnvironment` only -/
+example :
+    resolveSeqItem (penvOf [("A", "1")]) (.bare ['A']) = .kv ['A'] ['1'] ∧
+    normalizeItem (penvOf [("A", "1")]) (.bare ['B']) = .bare ['B'] ∧
+    resolveSeqItem (penvOf [("A=1", "x")]) (.kv ['A'] ['1']) = .kv ['A'] ['1', '=', 'x'] ∧
+    normalizeItem (penvOf [("A=1", "x")]) (.kv ['A'] ['1']) = .kv ['A'] ['1'] ∧
+    '=' ∉ (Item.bare ['A']).key := by
+  decide
+
+end Example
+
 end CV.EnvLayers
